@@ -457,6 +457,47 @@ def inlined_current(repo, f, node=None):
     return normal.inline_new_helpers(node if node is not None else f.node, resolve_node, is_new)
 
 
+def localise_new_module_defs(repo, f, node):
+    """Module-level `NAME = <pure expression>` definitions that the reference module does not have (a literal or a pattern hoisted out of
+    the function) are bound at the top of the function instead, where the rules - and the recovery of reference names - can see them."""
+    from . import normal
+    ref_names = reference().get('%s#module_assigns' % f.rel)
+    if ref_names is None:
+        return node
+    ref_names = set(ref_names)
+    local = {x.id for x in ast.walk(node) if isinstance(x, ast.Name) and isinstance(x.ctx, (ast.Store, ast.Del))}
+    local |= {a.arg for a in node.args.posonlyargs + node.args.args + node.args.kwonlyargs}
+    used = []
+    for x in ast.walk(node):
+        if isinstance(x, ast.Name) and isinstance(x.ctx, ast.Load) and x.id in f.module.assigns and x.id not in ref_names and x.id not in local \
+                and x.id not in used and normal._pure_expr(f.module.assigns[x.id]) \
+                and not isinstance(f.module.assigns[x.id], (ast.Dict, ast.Set)):        # tables are read by the loop unroller where they are
+            used.append(x.id)
+    # definitions may refer to one another
+    order = []
+    todo = list(used)
+    seen = set()
+    while todo:
+        nm = todo.pop(0)
+        if nm in seen:
+            continue
+        seen.add(nm)
+        order.append(nm)
+        for y in ast.walk(f.module.assigns[nm]):
+            if isinstance(y, ast.Name) and y.id in f.module.assigns and y.id not in ref_names and y.id not in local and y.id not in seen:
+                todo.append(y.id)
+    if not order:
+        return node
+    new = clone(node)
+    pos = 1 if (new.body and isinstance(new.body[0], ast.Expr) and isinstance(new.body[0].value, ast.Constant) and isinstance(new.body[0].value.value, str)) else 0
+    for nm in order:            # dependencies were appended after their users: insert in reverse so that they come first
+        st = ast.Assign(targets=[ast.Name(id=nm, ctx=ast.Store())], value=clone(f.module.assigns[nm]))
+        ast.copy_location(st, new.body[pos] if pos < len(new.body) else new)
+        ast.fix_missing_locations(st)
+        new.body.insert(pos, st)
+    return new
+
+
 def _substitute_reference(repo, f, entry):
     """If the function is a respelling of the reference (equal normal forms, pydlsa/normal.py) analyse the reference spelling
     in its place.  Returns True when substituted."""
@@ -471,6 +512,7 @@ def _substitute_reference(repo, f, entry):
         consts = module_consts(repo, f)
         cur = inlined_current(repo, f)
         if normal.nf_key(cur, info, consts) != normal.nf_key(rnode, info, consts):
+            cur = localise_new_module_defs(repo, f, cur)
             if cur is not f.node:
                 # not a pure respelling, but a block of it now lives in a helper the reference does not have: the rules look at the
                 # function with that helper inlined (same behaviour), not at a call they cannot see through
@@ -505,7 +547,7 @@ def apply_tables(repo):
     apply the hand-written role tables (called by the loader)."""
     ref = reference()
     import hashlib
-    for key in sorted({k.split('#')[0] for k in ref}):
+    for key in sorted({k.split('#')[0] for k in ref if ':' in k}):
         rel, q = key.split(':', 1)
         m = repo.modules.get(rel)
         if m is not None and q in m.funcs:
